@@ -89,7 +89,8 @@ impl Ctx {
         let out = out?;
         let text = String::from_utf8_lossy(&out.stdout).to_string();
         let class_line = text.lines().find_map(|l| l.strip_prefix("CLASS=").map(|s| s.to_string()));
-        let crashed = out.status.signal().is_some() || matches!(out.status.code(), Some(134) | Some(139));
+        // only signals that memory-unsafe or aborting code raises (SIGILL, SIGABRT, SIGBUS, SIGFPE, SIGSEGV)
+        let crashed = matches!(out.status.signal(), Some(4) | Some(6) | Some(7) | Some(8) | Some(11)) || matches!(out.status.code(), Some(132) | Some(134) | Some(135) | Some(136) | Some(139));
         let deadlocked = out.status.code() == Some(4);
         let same = match (&class_line, crashed, deadlocked) {
             (_, true, _) => self.class == "process-crash",
